@@ -233,6 +233,15 @@ def main(tier):
         if r.get("status") == "violation" and r.get("kind") == "schema" and (common.base_pid(r["job"].split("|", 1)[1]), tuple(r.get("ops") or [])) in everywhere:
             not_opset_specific.add(common.base_pid(r["job"].split("|", 1)[1]) + " " + ",".join(r.get("ops") or []))
             r["status"] = "not_opset_specific"
+    # a value defect that C01 already lists as a known finding for this component exists at the default
+    # opset as well (which testcase exposes it in one run depends on solver models): not an opset matter
+    try:
+        import json as _json
+
+        c01_known = {f["key"].rsplit("|", 1)[0] for f in _json.load(open("/verif/known_findings.json"))["findings"] if f.get("property") == "C01" and f.get("status") == "known"}
+    except Exception:
+        c01_known = set()
+    at_default |= c01_known
     for r in results:
         if r.get("status") == "violation" and r.get("kind") != "schema" and common.finding_pid(r["job"].split("|", 1)[1]) in at_default:
             not_opset_specific.add(common.finding_pid(r["job"].split("|", 1)[1]))
